@@ -1234,6 +1234,21 @@ def unroll_literal_loops(fn: FuncNode) -> FuncNode:
                     for b in st.body:
                         out.append(Sub(st.target.id, e).visit(clone(b)))
                 continue
+            # `for a, b in ((x1, y1), (x2, y2)): BODY` over literal rows
+            if isinstance(st, ast.For) and isinstance(st.target, ast.Tuple) and all(isinstance(t, ast.Name) for t in st.target.elts) \
+                    and isinstance(st.iter, (ast.Tuple, ast.List)) and not st.orelse and 0 < len(st.iter.elts) <= 16 \
+                    and all(isinstance(r, (ast.Tuple, ast.List)) and len(r.elts) == len(st.target.elts) for r in st.iter.elts) \
+                    and not any(isinstance(x, (ast.Call, ast.Await, ast.Yield, ast.Starred)) for r in st.iter.elts for x in ast.walk(r)) \
+                    and not any(isinstance(x, (ast.Break, ast.Continue)) for b in st.body for x in ast.walk(b)):
+                names_ = [t.id for t in st.target.elts]          # type: ignore[attr-defined]
+                if not any(isinstance(x, ast.Name) and isinstance(x.ctx, ast.Store) and x.id in names_ for b in st.body for x in ast.walk(b)):
+                    for r in st.iter.elts:
+                        for b in st.body:
+                            nb = clone(b)
+                            for nm_, val in zip(names_, r.elts):          # type: ignore[attr-defined]
+                                nb = Sub(nm_, val).visit(nb)
+                            out.append(nb)
+                    continue
             out.append(st)
         return out
     new.body = unroll(new.body)
@@ -1369,6 +1384,12 @@ def specialize(fn: FuncNode, consts: Dict[str, Any]) -> FuncNode:
             if isinstance(node.ctx, ast.Load) and node.id in consts:
                 return ast.copy_location(ast.Constant(value=consts[node.id]), node)
             return node
+
+        def visit_Attribute(self, node: ast.Attribute) -> ast.AST:
+            # a dotted key (`args.run`) stands for that attribute read
+            if isinstance(node.ctx, ast.Load) and dotted(node) in consts:
+                return ast.copy_location(ast.Constant(value=consts[dotted(node)]), node)
+            return self.generic_visit(node)
 
         def visit_Compare(self, node: ast.Compare) -> ast.AST:
             self.generic_visit(node)
@@ -1626,3 +1647,137 @@ def temp_values(fn: FuncNode) -> Dict[str, ast.expr]:
                     isinstance(x.func, ast.Attribute) and x.func.attr == 'bit_length' and not x.args)) for x in ast.walk(val)):
                 pure[st.targets[0].id] = val
     return out
+
+
+def read_through_locals(fn: FuncNode) -> FuncNode:
+    """fn as the rules read it when locals merely rename things: literal sequences spread / unpacked, then every single-definition
+    call-free temporary substituted (`a, b = self.x, self.y` then `b.append(a)` reads `self.y.append(self.x)`)."""
+    return inline_pure_temps(spread_literal_sequences(fn))
+
+
+def inline_optional_classifiers(repo: 'Repo', rel: str, fn: FuncNode, cls: Optional[str] = None) -> FuncNode:
+    """a copy of fn in which the pair
+         v = _h(args)                      # _h: private module function made of call-free temporaries, `if T: return E` steps
+         if v is not None: BODY            #     and a final `return None`;  BODY ends in return / raise / continue / break
+       reads as the cascade   if T1[args]: BODY[v := E1]   if T2[args]: BODY[v := E2] ...   - an extracted "which case is it, or
+       None" helper reads like the tests it was extracted from."""
+    new = clone(fn)
+
+    def steps_of(h: FuncNode) -> Optional[List[Tuple[ast.expr, ast.expr]]]:
+        h2 = inline_pure_temps(h)
+        body = [b for b in h2.body if not (isinstance(b, ast.Expr) and isinstance(b.value, ast.Constant))]
+        out: List[Tuple[ast.expr, ast.expr]] = []
+        for k, st in enumerate(body):
+            last = k == len(body) - 1
+            if isinstance(st, ast.If):
+                cur: Any = st
+                while True:            # an if / elif chain of `return E` arms (temporaries local to an arm are substituted)
+                    arm = inline_block(cur.body)
+                    if not (len(arm) == 1 and isinstance(arm[0], ast.Return) and arm[0].value is not None):
+                        return None
+                    out.append((cur.test, arm[0].value))
+                    if len(cur.orelse) == 1 and isinstance(cur.orelse[0], ast.If):
+                        cur = cur.orelse[0]
+                        continue
+                    if cur.orelse:
+                        return None
+                    break
+            elif last and isinstance(st, ast.Return) and (st.value is None or (isinstance(st.value, ast.Constant) and st.value.value is None)):
+                pass
+            else:
+                return None
+        return out or None
+
+    def helper_of(call: ast.Call) -> Optional[FuncNode]:
+        d = dotted(call.func)
+        name = d.split('.')[-1]
+        if not name.startswith('_') or name.startswith('__') or call.keywords:
+            return None
+        if d == name and repo.has_func(rel, name):
+            return repo.func(rel, name)
+        if d == f'self.{name}' and cls:
+            for c_ in _class_chain(repo, rel, cls):
+                if repo.has_func(rel, f'{c_}.{name}'):
+                    return repo.func(rel, f'{c_}.{name}')
+        return None
+
+    def fix(stmts: List[ast.stmt]) -> List[ast.stmt]:
+        out: List[ast.stmt] = []
+        i = 0
+        while i < len(stmts):
+            st = stmts[i]
+            for fld in ('body', 'orelse', 'finalbody'):
+                sub = getattr(st, fld, None)
+                if isinstance(sub, list) and sub and isinstance(sub[0], ast.stmt):
+                    setattr(st, fld, fix(sub))
+            if isinstance(st, ast.Try):
+                for hd in st.handlers:
+                    hd.body = fix(hd.body)
+            nxt = stmts[i + 1] if i + 1 < len(stmts) else None
+            if isinstance(st, ast.Assign) and len(st.targets) == 1 and isinstance(st.targets[0], ast.Name) and isinstance(st.value, ast.Call) \
+                    and helper_of(st.value) is not None and isinstance(nxt, ast.If) and not nxt.orelse and nxt.body \
+                    and isinstance(nxt.body[-1], (ast.Return, ast.Raise, ast.Continue, ast.Break)):
+                v = st.targets[0].id
+                t = nxt.test
+                is_not_none = isinstance(t, ast.Compare) and len(t.ops) == 1 and isinstance(t.ops[0], ast.IsNot) and norm(t.left) == v \
+                    and isinstance(t.comparators[0], ast.Constant) and t.comparators[0].value is None
+                h = helper_of(st.value)
+                assert h is not None
+                params = [a.arg for a in h.args.args]
+                if params and params[0] in ('self', 'cls') and dotted(st.value.func).startswith('self.'):
+                    params = params[1:]
+                steps = steps_of(h) if is_not_none and len(params) == len(st.value.args) else None
+                uses_elsewhere = sum(1 for x in ast.walk(new) if isinstance(x, ast.Name) and x.id == v and isinstance(x.ctx, ast.Load)) \
+                    - sum(1 for b in [nxt] for x in ast.walk(b) if isinstance(x, ast.Name) and x.id == v and isinstance(x.ctx, ast.Load))
+                pure_args = not any(isinstance(x, (ast.Call, ast.Await, ast.Yield)) for a in st.value.args for x in ast.walk(a))
+                if steps is not None and uses_elsewhere == 0 and pure_args:
+                    b = dict(zip(params, st.value.args))
+
+                    class Bind(ast.NodeTransformer):
+                        def __init__(self, m: Dict[str, ast.expr]):
+                            self.m = m
+
+                        def visit_Name(self, node: ast.Name) -> ast.AST:
+                            return clone(self.m[node.id]) if isinstance(node.ctx, ast.Load) and node.id in self.m else node
+                    for test, val in steps:
+                        t2 = Bind(b).visit(clone(test))
+                        v2 = Bind(b).visit(clone(val))
+                        body2 = [Bind({v: v2}).visit(clone(x)) for x in nxt.body]
+                        out.append(ast.copy_location(ast.If(test=t2, body=body2, orelse=[]), nxt))
+                    i += 2
+                    continue
+            out.append(st)
+            i += 1
+        return out
+    new.body = fix(new.body)
+    return relink(ast.fix_missing_locations(new))
+
+
+def resolve_names(fn: FuncNode, e: ast.expr, *, allow_calls: bool = False, depth: int = 4) -> ast.expr:
+    """e with every name that fn binds exactly once (anywhere in fn, also inside a loop body) by a plain assignment replaced by
+    that value, repeatedly - a reading aid: `last = start + length - 1` ... `f(start, last)` reads `f(start, start + length - 1)`.
+    Values containing calls are substituted only with allow_calls (the text of the call is then duplicated: read, do not count)."""
+    stores: Dict[str, int] = {}
+    vals: Dict[str, ast.expr] = {}
+    for n in walk_no_nested(fn):
+        if isinstance(n, ast.Name) and isinstance(n.ctx, ast.Store):
+            stores[n.id] = stores.get(n.id, 0) + 1
+        if isinstance(n, (ast.Assign, ast.AnnAssign)) and n.value is not None:
+            tg = n.targets[0] if isinstance(n, ast.Assign) and len(n.targets) == 1 else (n.target if isinstance(n, ast.AnnAssign) else None)
+            if isinstance(tg, ast.Name):
+                vals[tg.id] = n.value
+    for a in fn.args.args + fn.args.kwonlyargs:
+        stores[a.arg] = stores.get(a.arg, 0) + 1
+    ok = {k: v for k, v in vals.items() if stores.get(k) == 1 and (allow_calls or not any(
+        isinstance(x, (ast.Await, ast.Yield)) or (isinstance(x, ast.Call) and dotted(x.func) not in PURE_BUILTINS) for x in ast.walk(v)))}
+
+    class S(ast.NodeTransformer):
+        def visit_Name(self, node: ast.Name) -> ast.AST:
+            return clone(ok[node.id]) if isinstance(node.ctx, ast.Load) and node.id in ok else node
+    out = clone(e)
+    for _ in range(depth):
+        nxt = S().visit(clone(out))
+        if ast.dump(nxt) == ast.dump(out):
+            break
+        out = nxt
+    return ast.fix_missing_locations(out)
